@@ -742,12 +742,14 @@ impl Job {
                 p.base = base.bytes;
                 // SimReader (even with full reads) counts calls, so a loader that keeps polling a
                 // reader at end of input is caught at once rather than by the wall-clock watchdog
-                match r.below(5) {
-                    0 => {
+                match r.below(25) {
+                    0..=4 => {
                         p.wrapper = Wrapper::Sim;
                         p.reader = gen_reader_plan(&mut r, p.base.len() as u64, &[], false);
                     }
-                    1 => p.wrapper = Wrapper::Slice,
+                    5..=9 => p.wrapper = Wrapper::Slice,
+                    // the file-backed entry point is a separate public function
+                    10 => p.wrapper = Wrapper::ReadFile,
                     _ => p.wrapper = Wrapper::Sim,
                 }
             }
